@@ -476,7 +476,7 @@ type vc16pWatch struct {
 
 func vc16pStartWatch(n int, rep *vc16pReport) *vc16pWatch {
 	w := &vc16pWatch{cur: make([]atomic.Pointer[string], n), since: make([]atomic.Int64, n), stop: make(chan struct{})}
-	const limit = 10 * time.Second
+	const limit = 60 * time.Second
 	go func() {
 		tk := time.NewTicker(250 * time.Millisecond)
 		defer tk.Stop()
